@@ -5,6 +5,7 @@ package main
 import (
 	"fmt"
 	"os"
+	"sort"
 	"strings"
 	"sync"
 	"unicode/utf8"
@@ -113,11 +114,7 @@ func (g *lexGen) walk(maxLen int, wantAccept bool) []rune {
 				ks = append(ks, k)
 			}
 			// deterministic order before picking
-			for i := 1; i < len(ks); i++ {
-				for j := i; j > 0 && ks[j] < ks[j-1]; j-- {
-					ks[j], ks[j-1] = ks[j-1], ks[j]
-				}
-			}
+			sort.Slice(ks, func(i, j int) bool { return ks[i] < ks[j] })
 			k := ks[g.r.intn(len(ks))]
 			if k == 0 {
 				continue
@@ -356,6 +353,29 @@ func runC19(c *ctx) {
 		// input ending inside a token / invalid UTF-8 (termination only)
 		add("invalid-utf8", string(g.walk(4, true))+"\xff"+string(g.walk(4, true)), 0)
 		add("invalid-utf8-2", "\xc3", 0)
+		// a token that STARTS with a multi-byte character, placed so that this character straddles each buffer boundary,
+		// with more than a buffer of input after it
+		{
+			var mb string
+			for try := 0; try < 200 && mb == ""; try++ {
+				if w := g.walk(6, true); len(w) > 0 && w[0] >= 0x80 {
+					mb = string(w)
+				}
+			}
+			if mb != "" {
+				filler := ""
+				for len(filler) < 9000 {
+					filler += string(g.walk(8, true)) + " "
+				}
+				for _, b := range []int{4096, 8192, 12288, 16384, 24576} {
+					for p := b - 4; p <= b+1; p++ {
+						add(fmt.Sprintf("multibyte-at-%d", p), strings.Repeat(" ", p)+mb+" "+filler, 0)
+						add(fmt.Sprintf("multibyte-at-%d/nl", p), strings.Repeat("\n", p)+mb+" "+filler, 0)
+					}
+				}
+				c.count("specifications_with_multi_byte_token_starts_swept_across_buffer_boundaries", 1)
+			}
+		}
 		// padding sweep: tokens across the buffer boundaries
 		body := ""
 		for len(body) < 120 {
@@ -411,6 +431,12 @@ func runC19(c *ctx) {
 			}
 			if p%7 == 3 {
 				chunk = -(700 + p%3511)
+			}
+			for _, b := range []int{4096, 8192, 12288, 16384} {
+				if p >= b-4 && p <= b+1 {
+					// the input goes on for more than a buffer after the boundary (a reader may then fill the whole buffer)
+					add(fmt.Sprintf("pad%d+long-tail", p), pad+body+" "+strings.Repeat(body+" ", 9000/(len(body)+1)+1), 0)
+				}
 			}
 			add(fmt.Sprintf("pad%d", p), pad+body, chunk)
 			if p%2 == 0 {
